@@ -264,8 +264,13 @@ def load_replay(path):
     return {"case": d}
 
 
+def _out_root():
+    # the mutation audit redirects what a run writes (evidence, found replays) so that it does not touch the registered outputs
+    return os.environ.get("VERIF_OUT_DIR") or VERIF_ROOT
+
+
 def write_found(pid, signature, message, case):
-    d = os.path.join(VERIF_ROOT, "found", pid)
+    d = os.path.join(_out_root(), "found", pid)
     os.makedirs(d, exist_ok=True)
     name = hashlib.sha1((signature + canonical(case)).encode()).hexdigest()[:12] + ".json"
     path = os.path.join(d, name)
@@ -591,7 +596,7 @@ def write_evidence(check, tier, seed, stats, wall_s, n_violations, known_lines):
         "wall_s": round(wall_s, 2),
         "violations": n_violations,
     }
-    d = os.path.join(VERIF_ROOT, "evidence")
+    d = os.path.join(_out_root(), "evidence")
     os.makedirs(d, exist_ok=True)
     tmp = os.path.join(d, f".{pid}.json.tmp")
     with open(tmp, "w", encoding="utf-8") as f:
